@@ -55,7 +55,13 @@ var theT *testing.T
 
 func bubble(body func()) { synctest.Test(theT, func(*testing.T) { body() }) }
 
-func subName(i int) string { return fmt.Sprintf("s%d", i+1) }
+// Subscriber ids with structure: '/', ':', '.', spaces, an id that is a prefix of another id, and an
+// id equal to another id's last path element — keys are composed as /allocation/<pool>/<id>, so any
+// code that re-derives the id from the key (or the key from the id) must get these right.
+// Ids must not contain '(' ')' ',' '!' (operation syntax of this harness).
+var subIDs = []string{"olt-1/0/3:100 a.b", "3:100 a.b", "olt-1/0"}
+
+func subName(i int) string { return subIDs[i] }
 
 func recKey(sub string) string { return "/allocation/" + poolID + "/" + sub }
 
